@@ -128,6 +128,94 @@ def h_intrude(ex, rw, nbytes, seed_key, who='foreign', n_intrusions=1, cli=CLI):
     ex.witness()
 
 
+def h_client_busy(ex, rw, nbytes, seed_key):
+    """the facade routes requests that arrive while it is itself querying to a busy answer: node A runs a read / write
+    as CLIENT; a DM14 from a third node reaches A at every point of that transaction.  A's serving application is never
+    consulted, whatever A answers is a DM15 failed / busy to the intruder, and A's own transaction is not disturbed."""
+    rig = Rig(ex, seed_key=seed_key)
+    w = rig.w
+    a_calls = []
+    rig.cma.set_proceed(lambda *a: (a_calls.append(('proceed', a[6])), True)[1])
+    rig.cma.set_notify(lambda: a_calls.append(('notify', None)))
+    ptr = ex.fresh_int('ptr', 0, (1 << 32) - 1)
+    isa = ex.fresh_int('intruder_sa', 0, 253)
+    ex.assume(isa != SRV)
+    ex.assume(isa != CLI)
+    iptr = ex.fresh_int('intruder_ptr', 0, (1 << 32) - 1)
+    idata = [ex.fresh_int('intruder_count', 1, 255), 0x13] + [(iptr // 2 ** (8 * k)) % 256 for k in range(4)] + [0x07, 0x00]
+    icid = (6 << 26) | (0xD9 << 16) | (CLI << 8) | isa
+    state = {'events': 0, 'injected': 0, 'started': False, 'where': []}
+
+    def maybe_inject(label):
+        if not state['started'] or state['injected'] >= 1:
+            return
+        idx = state['events']
+        state['events'] += 1
+        if ex.choose('inj%d' % idx, 2) == 1:
+            state['injected'] += 1
+            state['where'].append('%d:%s' % (idx, label))
+            # on the bus right after that frame, i.e. ahead of whatever the client has not processed yet
+            rig.sa.node.inbox.insert(0, {'i': -1, 't': w.now, 'src': 'ext', 'id': icid, 'ext': True, 'data': list(idata), 'fd': False, 'lost': False})
+
+    orig_deliver = rig.sa.node.deliver
+
+    def deliver(frame):
+        orig_deliver(frame)
+        if frame['src'] == 'B':
+            maybe_inject('after the client received frame %d' % frame['i'])
+    rig.sa.node.deliver = deliver
+    def on_a_frame(f):
+        if f['src'] != 'A':
+            return
+        fld = ids.id_fields(f['id'])
+        if bool(fld['pf'] == 0xD9) and len(f['data']) == 8 and bool(((f['data'][1] // 2) % 8) == 4):
+            state['started'] = False      # the client's transaction ends with its closing (operation completed) DM14
+            return
+        maybe_inject('after the client sent frame %d' % f['i'])
+    w.frame_hooks.append(on_a_frame)
+
+    data = sym_payload(ex, 'd', nbytes)
+    values = [ex.fresh_int('v%d' % j, 0, 255) for j in range(nbytes)]
+    rig.plan = {'data': data if rw == 'read' else []}
+    base = len(w.log)
+    state['started'] = True
+    err, res = None, None
+    try:
+        if rw == 'read':
+            res = rig.read(ptr, nbytes, 1, False, True, timeout=1)
+        else:
+            rig.write(ptr, list(values), 1, timeout=1)
+    except (RuntimeError, RuntimeWarning) as e:
+        err = e
+    state['started'] = False
+    rig.settle('1/2')
+    info = {'rw': rw, 'nbytes': nbytes, 'seed_key': seed_key, 'injected_at': state['where']}
+    ex.claim('client_busy.application_not_consulted', len(a_calls) == 0, dict(info, calls=[c[0] for c in a_calls]))
+    for f in w.log[base:]:
+        if f['src'] != 'A':
+            continue
+        fld = ids.id_fields(f['id'])
+        if bool(fld['ps'] == isa):
+            st_bits = (f['data'][1] // 2) % 8
+            ex.claim('client_busy.answer_is_dm15_busy_or_failed', sym_and(fld['pf'] == 0xD8, sym_or(st_bits == 5, st_bits == 1)), dict(info, data=f['data']))
+    ex.claim('client_busy.own_transaction_ok', err is None, dict(info, error=repr(err)))
+    if err is None and rw == 'read':
+        ok = res is not None and len(res) == nbytes
+        ex.claim('client_busy.read_length', ok, dict(info, got=None if res is None else len(res)))
+        if ok:
+            ex.claim('client_busy.read_exact', sym_eq_seq(list(res), data), info)
+    if rw == 'write':
+        rets = rig.respond_returns
+        ok = len(rets) == 1 and rets[0] is not None and len(rets[0]) == nbytes
+        ex.claim('client_busy.write_server_got_data', ok, dict(info, returns=len(rets)))
+        if ok:
+            ex.claim('client_busy.write_exact', sym_eq_seq(list(rets[0]), values), info)
+    ex.claim('client_busy.facade_idle_afterwards', rig.cma.state is j1939.DMState.IDLE, dict(info, state=str(rig.cma.state)))
+    ex.claim('job_threads_alive', rig.sa.alive() and rig.sb.alive())
+    ex.observe('where', state['where'])
+    ex.witness()
+
+
 def jobs(tier):
     out = []
     q = tier == 'quick'
@@ -141,6 +229,8 @@ def jobs(tier):
                 J(rw=rw, nbytes=n, seed_key=sk, who='foreign')
                 J(rw=rw, nbytes=n, seed_key=sk, who='same_sa')
             J(rw=rw, nbytes=3, seed_key=sk, who='foreign', n_intrusions=2)
+            for n in ([3, 20] if q else [1, 3, 7, 8, 9, 20]):
+                out.append(Job('C19', 'c19:h_client_busy', {'rw': rw, 'nbytes': n, 'seed_key': sk}, W=96, wall=300, max_paths=50000, validate=1))
             J(rw=rw, nbytes=3, seed_key=sk, who='foreign', cli=0x00)
             J(rw=rw, nbytes=9, seed_key=sk, who='foreign', cli=0xFD)
     return out
@@ -151,7 +241,7 @@ def meta(tier):
         'bounds': ['transaction shapes: read / write, with / without seed-key, data lengths ' + ('{3, 20}' if tier == 'quick' else '{1,3,7,8,9,20,40}') + ' (single-frame and RTS/CTS DM16)',
                    'injection point: after every frame the server has received from the running requester and after every frame the serving application thread has sent (enumerated schedule choice), 1 or 2 intrusions',
                    'intruder: foreign source address (symbolic 0..253, != server, != requester) with a symbolic pointer (= / != the running one, split by the solver) and symbolic count; or the requester\'s own address with a different pointer',
-                   'pointer, data, values, seed symbolic', 'running requester at address 0xF9, 0x00, 0xFD'],
+                   'pointer, data, values, seed symbolic', 'running requester at address 0xF9, 0x00, 0xFD', 'client-side shape: the intruding DM14 reaches a node that is itself running a read / write as client (every point of that transaction)'],
         'outside': ['intruding frames other than a single-frame DM14 read request', 'more than two intrusions'],
         'assumptions': ['as C17'],
     }
